@@ -445,3 +445,27 @@ def run(repo: Repo, rep: Report, tier: str) -> None:
         local = any(call_name(c) == "_is_naked_bundle_comparison" for c in calls_in(vm.node))
         rep.check(local or central, "C14-R9", f"bare bundle comparison is rejected in {vname[6:]}",
                   "tested" if local or central else f"`x = bundle > 0`-style use in a {vname[6:]} reaches lowering unchecked (refused only by a draftsman DataFormatError at emission)", vm.loc())
+
+    # ---------------- R10 --------------------------------------------------------------
+    rep.rule("C14-R10", "scopes nest: wherever the analyzer enters a child scope, the scope it returns to is held in a local of that activation (function bodies and loop iterations "
+             "nest, so a single shared slot is overwritten by the inner scope and the analyzer stays in a leaked child scope, where a redeclaration looks like shadowing)")
+    from .util import canon as _c10
+    n10 = 0
+    for m10 in an.methods.values():
+        if m10.name == "__init__":
+            continue
+        c10 = _c10(m10)
+        for st10 in walk_local(m10.node):
+            if isinstance(st10, ast.Assign) and norm(st10.targets[0]) == "self.current_scope":
+                n10 += 1
+                v10 = st10.value
+                t10 = c10.text(v10)
+                enters = "create_child_scope(" in t10
+                restores_local = isinstance(v10, ast.Name) and any(norm(d) == "self.current_scope" for d in DefUse(m10).value_exprs(v10.id))
+                ok10 = enters or restores_local
+                rep.check(ok10, "C14-R10", f"{m10.short}: scope switch #{n10} enters a child scope or returns to the scope saved in a local",
+                          "enter" if enters else ("restore from local" if restores_local else f"`self.current_scope = {norm(v10)[:50]}`: the scope to return to is not held per activation"), m10.loc(st10))
+    rep.floor("C14-R10", "scope switches in the analyzer", n10, 2)
+    from .shared import borrow as _borrow14
+    _borrow14(repo, rep, "C16", "C16-R5", "C14-R11", "the zero-step rule sees the step the program wrote: the transformer hands the literal step on unchanged (a default is applied only when the clause is absent)",
+              select=lambda o: "step" in o.construct, floor=2)
